@@ -782,7 +782,7 @@ _srv("C06",
 _srv("C07",
      mc={"quick": [dict(MaxMsgs=6, MaxOpen=1, HiVals=(0,), LoVals=(1,), OpShapes="chain", StampModes=("last",))],
          "thorough": [dict(MaxMsgs=8, MaxOpen=1, HiVals=(0,), LoVals=(1,), OpShapes="chain", StampModes=("last",))]},
-     sims=_S_SIMS, exh=_S_EXH, random_cfg=_rnd(["get", "ops"], 80, 800), directed=lambda ctx: c07_directed(ctx))
+     sims=_S_SIMS, exh=_S_EXH, random_cfg=_rnd(["get", "ops"], 80, 800), directed=lambda ctx: c07_directed(ctx) + c07_large(ctx))
 _srv("C09",
      mc={"quick": [dict(MaxMsgs=4, MaxOpen=2, ParamMsgs="all", WithBadMsgs=True, AckModes=("RIB", "RIB_FIB"), HiVals=(0,), LoVals=(1,), StampModes=("last", "none"))],
          "thorough": [dict(MaxMsgs=5, MaxOpen=3, ParamMsgs="all", WithBadMsgs=True, AckModes=("RIB", "RIB_FIB"), HiVals=(0,), LoVals=(1, 2), StampModes=("last", "none"))]},
@@ -894,6 +894,24 @@ def c10_directed(ctx):
               {"a": "get", "g": {"ni": "*", "aft": "nh"}}, {"a": "close", "s": "s2", "mode": "eof"}]
         out.append(json.dumps(w))
     return out
+
+
+def c07_large(ctx):
+    """More entries in one Get scope than any batching a server might apply (70 next-hops + group + prefix), and a network
+    instance created while the server runs, after a Get over all instances was already served."""
+    pre = [{"a": "sreset", "nis": ["DEFAULT", "vrf1"], "fwd": True}, {"a": "open", "s": "s1"},
+           _msg("s1", {"k": "params", "red": "SINGLE_PRIMARY", "per": "PRESERVE", "ack": "RIB"}), _msg("s1", {"k": "elec", "id": [0, 1]})]
+    w = list(pre)
+    for base in (0, 35):
+        w.append(_msg("s1", {"k": "ops", "ops": [_nh(100 + base + i, "DEFAULT", 1 + base + i) for i in range(35)]}))
+    w += [{"a": "get", "g": {"ni": "*", "aft": "ALL"}}, {"a": "get", "g": {"ni": "DEFAULT", "aft": "nh"}}, {"a": "get", "g": {"ni": "vrf1", "aft": "ALL"}}]
+    w2 = list(pre) + [_msg("s1", {"k": "ops", "ops": [_nh(1, "DEFAULT", 1)]}), {"a": "get", "g": {"ni": "*", "aft": "ALL"}},
+                      {"a": "flushrpc", "r": {"ni": "*", "el": "override", "id": [0, 0]}},
+                      {"a": "addni", "ni": "late1"},
+                      _msg("s1", {"k": "ops", "ops": [_nh(2, "late1", 1), _nh(3, "DEFAULT", 2)]}),
+                      {"a": "get", "g": {"ni": "*", "aft": "ALL"}}, {"a": "get", "g": {"ni": "late1", "aft": "nh"}},
+                      {"a": "flushrpc", "r": {"ni": "*", "el": "override", "id": [0, 0]}}, {"a": "get", "g": {"ni": "*", "aft": "ALL"}}]
+    return [json.dumps(w), json.dumps(w2)]
 
 
 def c07_directed(ctx):
